@@ -1,0 +1,10 @@
+//go:build verif
+
+package stdout
+
+import "github.com/atlassian/gostatsd"
+
+// VerifPreparePayloadC17 returns the text SendMetricsAsync hands to the logger.
+func VerifPreparePayloadC17(metrics *gostatsd.MetricMap, disabled gostatsd.TimerSubtypes) []byte {
+	return preparePayload(metrics, &disabled).Bytes()
+}
